@@ -12,16 +12,27 @@ W = "bibtexparser.writer."
 RE = "bibtexparser.middlewares.enclosing.RemoveEnclosingMiddleware."
 AE = "bibtexparser.middlewares.enclosing.AddEnclosingMiddleware."
 MO = "bibtexparser.middlewares.month."
+LB = "bibtexparser.library.Library."
 PROPS = {
+    "C08": {
+        "level": "other",
+        "level_text": "Mixed. Proved for every state satisfying the class invariant (contracts on the real Library methods, both argument forms): the invariant WF (held entries/strings are indexed under their key, index values are typed and keyed, no keyed block held twice) is kept by __init__, add, remove, replace and _add_to_dicts on normal AND exceptional exits -- which is a statement about every finite history; exact functional postconditions over the whole view (append position, first-equal removal with its index entry, replace keeps the position, first-wins duplicate wrapping, entries view, entries_dict is a copy); rollback of a failing remove(single) / replace(not held). Bounded (native histories, labelled): 'every index value is held' as a stand-alone invariant, rollback of the list forms, the five views partition blocks. Two known findings (K1, F11b) are carved out exactly and still reported.",
+        "level_note": STD_NOTE + "; Block/Field.__eq__ is assumed structural (A-EQ: reflexive, equal blocks have equal class and key; proved for the repo's __eq__ under C19); list.remove/index/insert and dict semantics as assumed builtin contracts (A-DICT).",
+        "modules": ["schema", "library"],
+        "functions": [LB + "__init__#empty", LB + "_cast_to_duplicate", LB + "_add_to_dicts", LB + "add#single", LB + "add#list",
+                      LB + "remove#single", LB + "remove#list", LB + "replace", LB + "entries", LB + "entries_dict"],
+        "native": "p08",
+        "explanation": "proved: class invariant on all exits, functional postconditions, rollback of remove/replace(not held); bounded: index values are held (existential witness), list-form rollback, view partition; known findings K1 (add fail_on_duplicate_key raises after mutating) and F11b (failing replace reorders the key index)",
+    },
     "C15": {
         "level": "proof",
         "level_text": "The three result rules, type preservation of non-months, the absence of any exception and the shared 12-row table are postconditions / lemmas on the real resolve_month_field_val functions, discharged for every value (int or str) by z3; composition follows from the two composition lemmas; an exhaustive native enumeration of the finite part accompanies it.",
         "level_note": STD_NOTE + "; str.lower/isdigit/isascii/int() are uninterpreted with the facts listed (value on literals from CPython, [0-9]+ characterisation).",
         "modules": ["schema", "month"],
         "functions": [MO + "MonthLongStringMiddleware.resolve_month_field_val", MO + "MonthAbbreviationMiddleware.resolve_month_field_val",
-                      MO + "MonthIntMiddleware.resolve_month_field_val"],
+                      MO + "MonthIntMiddleware.resolve_month_field_val", MO + "_MonthInterpolator.transform_entry"],
         "lemmas": ["C15.shared-table", "C15.compose-abbr", "C15.compose-long"],
-        "native": None,
+        "native": "p15",
     },
     "C10": {
         "level": "other",
